@@ -249,7 +249,7 @@ def run(check, repo, tier):
         "statement (instruction table interpreted from source); safety, converse, mirror and closure rules checked per path. "
         + ("All paths enumerated with the interlock-irrelevant decisions (comment text, which axes are given/known) pinned."
            if tier == "thorough" else
-           "Quick tier: paths with at most 2 decisions deviating from the default option; the thorough tier is exhaustive."))
+           "Quick tier: paths with at most 3 decisions deviating from the default option; the thorough tier is exhaustive."))
     check.assume("raw write() is the documented bypass and is excluded ('through the state-tracked API')")
     check.assume("callers pass type-correct arguments; writer I/O failures are out of scope")
     check.assume("RS274/Marlin oracle: M03/M04 start, M05 stop tool; M07/M08 start, M09 stop coolant; codes compared modulo leading zeros")
